@@ -518,7 +518,7 @@ def run_scenarios(chk, pid, scenarios, stream="neg"):
     Returns list of (scenario, impl_tokens, info, model_tokens)."""
     exe = vlib.build_simworld()
     sim_lines = [s.sim_line() for s in scenarios]
-    impl = vlib.run_parallel(exe, sim_lines, timeout=300)
+    impl = vlib.run_parallel(exe, sim_lines, timeout=40, per_case_timeout=8)
     model = None
     try:
         mexe = vlib.build_ocaml_model(pid)
@@ -1435,6 +1435,29 @@ def deadline_scenarios(rng, thorough=False):
             sc = Scenario(ops, "deadline:close-%s:%s" % (name, "+".join(map(str, delta))))
             sc.expect = (2000, "same", ("E:disconnect",), mark)
             S.append(sc)
+    # a healthy connection is never given up: every wait of the negotiation was disarmed by the answer it waited for
+    for name, st_ in (("plain", happy_client(tls=False, sm=False)), ("session", happy_client(tls=False, session="req", sm=False)),
+                      ("session-sm", happy_client(tls=False, session="req", sm=True)), ("tls-sm", happy_client(tls=True, sm=True)),
+                      ("zlib", happy_client(tls=False, sm=True, zlib=True))):
+        for delta in ((14999, 1, 1, 1), (16000, 16000, 60000)):
+            ops = base_ops(flags=64 if name == "zlib" else 0, user=(1, 1000000)) + [("connect", "client", ["accept"]), ("run", None)] + runs(*st_) + [("is",)]
+            mark = len(ops)
+            for dt in delta:
+                ops += [("clock", dt), ("run", None), ("is",)]
+            ops += [("release",)]
+            sc = Scenario(ops, "deadline:healthy-%s:%s" % (name, "+".join(map(str, delta))))
+            sc.expect = (10 ** 12, "same", ("E:disconnect", "W:close", "T:close"), mark)
+            S.append(sc)
+    for delta in ((14999, 1, 1, 1), (16000, 60000)):
+        ops = base_ops(user=(0, None)) + [("connect", "component", ["accept"]), ("run", None)] + \
+            runs(["h1"], [Elem("component", "handshake", xml="<handshake xmlns='jabber:component:accept'/>")]) + [("is",)]
+        mark = len(ops)
+        for dt in delta:
+            ops += [("clock", dt), ("run", None), ("is",)]
+        ops += [("release",)]
+        sc = Scenario(ops, "deadline:healthy-component:%s" % "+".join(map(str, delta)))
+        sc.expect = (10 ** 12, "same", ("E:disconnect", "W:close", "T:close"), mark)
+        S.append(sc)
     # a second disconnect request while the 2 s wait is pending does not extend it
     for first in (1500, 1999):
         for delta in ((1999 - first, 1, 1), (2000 - first, 1), (2001 - first, 1), (3000,)):
